@@ -650,7 +650,8 @@ func (sp *subProcess) Type() ActivityType {
 }
 
 func (sp *subProcess) Cancel() <-chan bool {
-	response := make(chan bool)
+	// buffered: the requester may have stopped waiting (the instance was cancelled)
+	response := make(chan bool, 1)
 	sp.mch <- cancelMessage{response: response}
 	return response
 }
